@@ -257,7 +257,7 @@ def run(ctx):
             ctx.violation("R18.2b", key, "%s passes the serialized text through %s: what is written is no longer what the back-end's reader inverts (e.g. a hand-made \\u escape is wrong for characters outside the basic plane)" % (f.short, ", ".join(sorted({x[1].split("::")[-1] for x in bad}))), b.site(bad[0][0]), key)
         else:
             ctx.ok("R18.2b", key, "back-end text untouched")
-    ctx.floor("R18.2b", "serialization_entry_points", n_entry, 4)
+    ctx.floor("R18.2b", "serialization_entry_points", n_entry, 2)
     # distinct formats must use distinct back-ends (Json and Yaml must not collapse)
     used = {}
     for vname, per in table.items():
